@@ -127,6 +127,8 @@ def condense_dataset(
                   meta_prefix="")
 
     h5_cond.require_group("logs")
+    # The "events" group does not exist yet for non-HDF5 (.tdms) input
+    h5_cond.require_group("events")
 
     # scalar features
     feats_sc = ds.features_scalar
